@@ -117,7 +117,6 @@ func (fs *FileStorage) GetMessages(offset uint64) ([]storage.Message, error) {
 		msgs []storage.Message
 		err  error
 		row  []byte
-		data storage.Message
 	)
 	if _, err = fs.dataFile.Seek(0, 0); err != nil {
 		return nil, fmt.Errorf("failed to seek a offset to the start of a data file:  %w", err)
@@ -132,6 +131,8 @@ func (fs *FileStorage) GetMessages(offset uint64) ([]storage.Message, error) {
 		}
 
 		row = scanner.Bytes()
+		// a fresh value for every line: a field that a line omits must not inherit the previous line's value
+		var data storage.Message
 		if err = json.Unmarshal(row, &data); err != nil {
 			return nil, fmt.Errorf("failed to unmarshal a message %s: %w", string(row), err)
 		}
